@@ -31,6 +31,18 @@
 #endif
 #define GD_LZMA_DATA_IN 32752
 #define GD_LZMA_LOOKBACK 4096
+#if defined GETDATA_VERIF && defined GD_VERIF_LZMA_DATA_OUT
+#undef GD_LZMA_DATA_OUT
+#define GD_LZMA_DATA_OUT GD_VERIF_LZMA_DATA_OUT
+#endif
+#if defined GETDATA_VERIF && defined GD_VERIF_LZMA_DATA_IN
+#undef GD_LZMA_DATA_IN
+#define GD_LZMA_DATA_IN GD_VERIF_LZMA_DATA_IN
+#endif
+#if defined GETDATA_VERIF && defined GD_VERIF_LZMA_LOOKBACK
+#undef GD_LZMA_LOOKBACK
+#define GD_LZMA_LOOKBACK GD_VERIF_LZMA_LOOKBACK
+#endif
 
 struct gd_lzmadata {
   lzma_stream xz;
